@@ -1,6 +1,7 @@
 package main
 
 import (
+	"sort"
 	"fmt"
 	"go/token"
 	"go/types"
@@ -327,32 +328,62 @@ func generateKeyPairRule(P *Program, R *Report) {
 	if fn == nil {
 		return
 	}
-	be := P.bigEval(fn)
-	priv := litFieldStores(fn, "new:gabikeys.PrivateKey")
 	p := "call:gabikeys.generateSafePrimePair(<gabikeys.SystemParameters>)#0"
 	q := "call:gabikeys.generateSafePrimePair(<gabikeys.SystemParameters>)#1"
+	// the private key is built here field by field, or by a constructor of the package (NewPrivateKey) that is then
+	// examined with its parameters bound to the arguments given here
+	privD := "new:gabikeys.PrivateKey" // how the key object is named in GenerateKeyPair
+	buildFn := fn
+	run := func(f func()) { f() }
+	if len(litFieldStores(fn, privD)) == 0 {
+		for _, ci := range callsIn(fn) {
+			c, isCall := ci.(*ssa.Call)
+			g := staticCallee(ci)
+			if !isCall || g == nil || g.Blocks == nil || g.Pkg != fn.Pkg || g.Signature.Results().Len() < 1 {
+				continue
+			}
+			if typeKey(g.Signature.Results().At(0).Type()) != "gabikeys.PrivateKey" {
+				continue
+			}
+			var n int
+			bindCall(c, g, func() { n = len(litFieldStores(g, "new:gabikeys.PrivateKey")) })
+			if n == 0 {
+				continue
+			}
+			buildFn = g
+			run = func(f func()) { bindCall(c, g, f) }
+			privD = desc(c)
+			if g.Signature.Results().Len() > 1 {
+				privD += "#0"
+			}
+		}
+	}
 	want := map[string]Term{
 		"P": tsym(p), "Q": tsym(q), "N": tmul(tsym(p), tsym(q)),
 		"PPrime": termFn("Rsh", tsym(p), tconst(1)), "QPrime": termFn("Rsh", tsym(q), tconst(1)),
 	}
-	for f, w := range want {
-		got := termAtStore(P, fn, priv[f])
-		if f == "P" || f == "Q" {
-			got = termOpaque(desc(priv[f].Val))
+	run(func() {
+		priv := litFieldStores(buildFn, "new:gabikeys.PrivateKey")
+		for f, w := range want {
+			got := termAtStore(P, buildFn, priv[f])
+			if (f == "P" || f == "Q") && priv[f] != nil {
+				got = termOpaque(desc(priv[f].Val))
+			}
+			R.decide(rule, kGenKey+":priv."+f, "private key field "+f+" = "+w.String(), got.equal(w), "got "+got.String(), P.Pos(fn.Pos()))
 		}
-		R.decide(rule, kGenKey+":priv."+f, "private key field "+f+" = "+w.String(), got.equal(w), "got "+got.String(), P.Pos(fn.Pos()))
-	}
-	// Order
-	okOrder := false
-	gotO := ""
-	for _, s := range sinksOf(fn) {
-		if st, ok := s.ins.(*ssa.Store); ok && s.target == "new:gabikeys.PrivateKey.Order" {
-			t := be.Use[st][st.Val]
-			gotO = t.String()
-			okOrder = t.equal(tmul(termFn("Rsh", tsym(p), tconst(1)), termFn("Rsh", tsym(q), tconst(1))))
+		// Order
+		okOrder := false
+		gotO := ""
+		bb := P.bigEval(buildFn)
+		for _, s := range sinksOf(buildFn) {
+			if st, ok := s.ins.(*ssa.Store); ok && s.target == "new:gabikeys.PrivateKey.Order" {
+				t := bb.Use[st][st.Val]
+				gotO = t.String()
+				okOrder = t.equal(tmul(termFn("Rsh", tsym(p), tconst(1)), termFn("Rsh", tsym(q), tconst(1))))
+			}
 		}
-	}
-	R.decide(rule, kGenKey+":priv.Order", "Order = PPrime * QPrime", okOrder, "got "+gotO, P.Pos(fn.Pos()))
+		R.decide(rule, kGenKey+":priv.Order", "Order = PPrime * QPrime", okOrder, "got "+gotO, P.Pos(fn.Pos()))
+	})
 	// public key: N, Params
 	got := map[string]string{}
 	for _, s := range sinksOf(fn) {
@@ -360,10 +391,10 @@ func generateKeyPairRule(P *Program, R *Report) {
 			got[strings.TrimPrefix(s.target, "new:gabikeys.PublicKey.")] = desc(s.val)
 		}
 	}
-	R.decide(rule, kGenKey+":pub.N", "the public modulus is the private key's N", got["N"] == "new:gabikeys.PrivateKey.N", got["N"], P.Pos(fn.Pos()))
+	R.decide(rule, kGenKey+":pub.N", "the public modulus is the private key's N", got["N"] == privD+".N", got["N"], P.Pos(fn.Pos()))
 	R.decide(rule, kGenKey+":pub.Params", "Params is the caller's parameter set", got["Params"] == "<gabikeys.SystemParameters>", got["Params"], P.Pos(fn.Pos()))
 	isN := func(t Term) bool {
-		return t.equal(tsym("new:gabikeys.PublicKey.N")) || t.equal(tsym("new:gabikeys.PrivateKey.N")) || t.equal(tmul(tsym(p), tsym(q)))
+		return t.equal(tsym("new:gabikeys.PublicKey.N")) || t.equal(tsym(privD+".N")) || t.equal(tmul(tsym(p), tsym(q)))
 	}
 	// S accepted => Legendre(S,P)==1 && Legendre(S,Q)==1 && S <= N
 	var sStore *ssa.Store
@@ -384,7 +415,7 @@ func generateKeyPairRule(P *Program, R *Report) {
 					return false
 				}
 				c, isC := g.SubjV.(*ssa.Call)
-				return isC && calleeIs(c, "common.LegendreSymbol") && sameValue(c.Call.Args[0], sv) && desc(c.Call.Args[1]) == "new:gabikeys.PrivateKey."+f
+				return isC && calleeIs(c, "common.LegendreSymbol") && sameValue(c.Call.Args[0], sv) && desc(c.Call.Args[1]) == privD+"."+f
 			}}).MustReach(fn, sStore)
 			R.decide(rule, kGenKey+":S-residue-mod-"+f, "S accepted => Legendre symbol of S modulo "+f+" is 1", r.Holds, r.Path, P.Pos(sStore.Pos()))
 		}
@@ -549,7 +580,7 @@ func generateKeyPairRule(P *Program, R *Report) {
 		okCall := false
 		for _, c := range callsIn(fn) {
 			if isCallTo(c, kGenRevKP) {
-				okCall = desc(c.Common().Args[0]) == "new:gabikeys.PrivateKey" && desc(c.Common().Args[1]) == "new:gabikeys.PublicKey"
+				okCall = desc(c.Common().Args[0]) == privD && desc(c.Common().Args[1]) == "new:gabikeys.PublicKey"
 			}
 		}
 		R.decide(rule, kGenKey+":revocation", "the revocation key pair is generated for this very key pair", okCall, "", P.Pos(fn.Pos()))
@@ -721,6 +752,18 @@ func goroutineProtocolRule(P *Program, R *Report, rule string) {
 		return caps[chanName(v)]
 	}
 	isStop := func(n string) bool { return n == "stopped" || n == "stop" }
+	// a stop signal: a channel of empty structs (closed, never sent on), whatever it is called or stored in
+	isStopChan := func(v ssa.Value) bool {
+		if isStop(chanName(v)) {
+			return true
+		}
+		if ch, ok := v.Type().Underlying().(*types.Chan); ok {
+			if st, ok := ch.Elem().Underlying().(*types.Struct); ok && st.NumFields() == 0 {
+				return true
+			}
+		}
+		return false
+	}
 	for _, body := range bodies {
 		all := append([]*ssa.Function{body}, closureFuncs(body)...)
 		for _, f := range all {
@@ -744,7 +787,7 @@ func goroutineProtocolRule(P *Program, R *Report, rule string) {
 						c := FuncKey(f) + ":select-send(" + name + ")"
 						guarded := false
 						for _, o := range x.States {
-							if o.Dir == types.RecvOnly && isStop(chanName(o.Chan)) {
+							if o.Dir == types.RecvOnly && isStopChan(o.Chan) {
 								guarded = true
 							}
 						}
@@ -759,7 +802,7 @@ func goroutineProtocolRule(P *Program, R *Report, rule string) {
 			allInstrs(f, func(i ssa.Instruction) {
 				if sel, ok := i.(*ssa.Select); ok {
 					for _, st := range sel.States {
-						if st.Dir == types.RecvOnly && isStop(chanName(st.Chan)) {
+						if st.Dir == types.RecvOnly && isStopChan(st.Chan) {
 							hasStop = true
 						}
 					}
@@ -768,27 +811,42 @@ func goroutineProtocolRule(P *Program, R *Report, rule string) {
 		}
 		R.decide(rule, FuncKey(body)+":stoppable", "the goroutine has a return path on the stop signal", hasStop, "", P.Pos(body.Pos()))
 	}
-	// close sites of shared channels
+	// close sites of shared channels: in the closures of GenerateConcurrent and in the same-package functions they call
 	nClose := 0
-	for _, f := range closureFuncs(fn) {
+	closers := map[*ssa.Function]bool{}
+	for _, f := range append([]*ssa.Function{fn}, closureFuncs(fn)...) {
+		closers[f] = true
+		for _, c := range callsIn(f) {
+			if g := staticCallee(c); g != nil && g.Blocks != nil && g.Pkg == fn.Pkg && g != fn {
+				closers[g] = true
+				for _, cf := range closureFuncs(g) {
+					closers[cf] = true
+				}
+			}
+		}
+	}
+	var closerList []*ssa.Function
+	for f := range closers {
+		closerList = append(closerList, f)
+	}
+	sort.Slice(closerList, func(i, j int) bool { return FuncKey(closerList[i]) < FuncKey(closerList[j]) })
+	for _, f := range closerList {
+		f := f
+		if f == fn {
+			continue
+		}
 		allInstrs(f, func(i ssa.Instruction) {
 			c, ok := i.(*ssa.Call)
-			if !ok || !isCallTo(c, "builtin:close") {
+			if !ok || !isCallTo(c, "builtin:close") || !isStopChan(c.Call.Args[0]) {
 				return
 			}
 			nClose++
-			// f must be passed to (*sync.Once).Do
+			// f must run under (*sync.Once).Do
 			underOnce := false
-			for _, g := range append([]*ssa.Function{fn}, closureFuncs(fn)...) {
-				allInstrs(g, func(j ssa.Instruction) {
-					cc, ok := j.(*ssa.Call)
-					if !ok || !calleeIs(cc, "(*sync.Once).Do") {
-						return
-					}
-					if mc, ok := cc.Call.Args[1].(*ssa.MakeClosure); ok && mc.Fn == ssa.Value(f) {
-						underOnce = true
-					}
-				})
+			for p := f; p != nil; p = p.Parent() {
+				if onceBodies(P)[p] != nil {
+					underOnce = true
+				}
 			}
 			R.decide(rule, FuncKey(f)+":close("+chanName(c.Call.Args[0])+")", "the shared stop signal is closed through sync.Once (several goroutines may want to close it)", underOnce, "close outside sync.Once.Do", P.Pos(c.Pos()))
 		})
